@@ -36,6 +36,7 @@ def gen_abstract(rng):
                 tag_scope=rng.choice(["absent", "default", "global", "branch"]), pre=rng.choice(["absent", "absent", "hooks/pre.sh"]), post=rng.choice(["absent", "absent", "hooks/post.sh"]),
                 commit=commit, tag=tag, push=push, entries=entries, self_explicit=rng.random() < 0.3,
                 self_extra=rng.choice([[], [], ["rel {version}"], ["rel {version}", "badge-{version}-x"]]),
+                no_table=rng.random() < 0.5,         # with nothing to list, the file_patterns table may be missing altogether (the key is optional)
                 self_glob=rng.random() < 0.15)       # a glob entry (*.toml / *.cfg) that covers the config file, which is not listed literally
 
 
@@ -58,9 +59,10 @@ def write_config(A, fname, section, syntax, rng):
             if A[k] != "absent":
                 spell[k] = rng.choice(INI_TRUE if A[k] == "true" else INI_FALSE)
                 lines.append("%s = %s" % (k, spell[k]))
-        lines.append("")
-        lines.append("[%s:file_patterns]" % section)
         ents = list(A["entries"])
+        if ents or A["self_explicit"] or A.get("self_glob") or not A.get("no_table"):
+            lines.append("")
+            lines.append("[%s:file_patterns]" % section)
         if A["self_explicit"]:
             ents.append([fname, [lines[1].replace(A["version"], "{version}")] + A["self_extra"]])        # spelled like the line it has to match, plus further patterns
         elif A.get("self_glob"):
@@ -86,9 +88,10 @@ def write_config(A, fname, section, syntax, rng):
             if A[k] != "absent":
                 spell[k] = A[k]
                 lines.append("%s = %s" % (k, A[k]))
-        lines.append("")
-        lines.append("[%s.file_patterns]" % section)
         ents = list(A["entries"])
+        if ents or A["self_explicit"] or (A.get("self_glob") and not fname.startswith(".")) or not A.get("no_table"):
+            lines.append("")
+            lines.append("[%s.file_patterns]" % section)
         if A["self_explicit"]:
             ents.append([fname, ['current_version = "{version}"'] + A["self_extra"]])
         elif A.get("self_glob") and not fname.startswith("."):
